@@ -75,6 +75,23 @@ def make_files(ck):
         add("long-name", "MPS", "NAME t\nROWS\n N obj\n G %s\nCOLUMNS\n %s obj 1 %s 1\nRHS\n RHS %s 1\nBOUNDS\n UP BND %s 4\nENDATA\n" % (nm, nm + "c", nm, nm, nm + "c"))
         add("long-name", "MPS", "NAME t\nROWS\n N obj\n G c1\nCOLUMNS\n x obj 1 %s 1\nENDATA\n" % nm)                # unknown long row name
         add("long-name", "BAS", "NAME t\n XU %s c1\nENDATA\n" % nm)
+    # names that end up in the DATA-level messages issued after parsing (ILLdata_warn / ILLdata_error format into a 256-byte
+    # buffer): lengths around the point where the message no longer fits, and far beyond it
+    for L in (150, 190, 200, 205, 210, 215, 220, 225, 230, 240, 250, 254, 255, 256, 260, 300, 520, 5000):
+        nm = "v" + "".join(chr(97 + i % 26) for i in range(1, L))
+        n2 = "w" + nm[1:]
+        add("long-name-data", "MPS", "NAME t\nROWS\n N obj\n N free1\n L c1\nCOLUMNS\n x obj 1 c1 1\n %s free1 1\nRHS\n RHS c1 10\nENDATA\n" % nm)   # used in a non-objective N row only
+        add("long-name-data", "LP", "min\n obj: x + %s\nst\n c1: x + %s >= 1\nbounds\n 5 <= %s <= 2\nend\n" % (nm, nm, nm))                                   # crossed bounds
+        add("long-name-data", "MPS", "NAME t\nROWS\n N obj\n G c1\nCOLUMNS\n %s obj 1 c1 1\nRHS\n RHS c1 1\nBOUNDS\n LO BND %s 5\n UP BND %s 2\nENDATA\n" % (nm, nm, nm))
+        add("long-name-data", "LP", "min\n obj: x + %s + 2 %s\nst\n c1: x + %s >= 1\nend\n" % (nm, nm, nm))                                                     # multiple coefficients, objective
+        add("long-name-data", "LP", "min\n obj: x + %s\nst\n c1: %s + x + 3 %s >= 1\nend\n" % (nm, nm, nm))                                                     # multiple coefficients, row
+        add("long-name-data", "MPS", "NAME t\nROWS\n N obj\n G c1\nCOLUMNS\n %s obj 1 c1 1\n %s c1 2\nRHS\n RHS c1 1\nENDATA\n" % (nm, nm))
+        add("long-name-data", "MPS", "NAME t\nROWS\n N obj\n G c1\nCOLUMNS\n MARKER 'MARKER' 'INTORG'\n %s obj 1 c1 1\n MARKER 'MARKER' 'INTEND'\n y obj 1 c1 1\nRHS\n RHS c1 1\n"
+            "SOS\n S1 SOS s1\n SOS s1 %s 1\n SOS s1 y 2\nENDATA\n" % (nm, nm))                                                                                   # integer SOS member
+        add("long-name-data", "MPS", "NAME t\nROWS\n N obj\n G c1\nCOLUMNS\n %s obj 1 c1 1\n %s obj 1 c1 1\nRHS\n RHS c1 1\nSOS\n S1 SOS s1\n SOS s1 %s 1\n SOS s1 %s 1\nENDATA\n"
+            % (nm, n2, nm, n2))                                                                                                                                        # equal SOS weights
+        add("long-name-data", "MPS", "NAME t\nOBJNAME\n %s\nROWS\n N obj\n G c1\nCOLUMNS\n x obj 1 c1 1\nRHS\n RHS c1 1\nENDATA\n" % nm)                       # unknown objective name
+        add("long-name-data", "MPS", "NAME t\nROWS\n N obj\n G %s\n G %s\nCOLUMNS\n x obj 1 %s 1\nRHS\n RHS %s 1\n RHS %s 2\nRANGES\n RNG %s 1\n RNG %s 2\nENDATA\n" % (nm, nm, nm, nm, nm, nm, nm))
         add("long-line", "LP", "min\n obj: x " + "+ 1 x " * (L // 6) + "\nst\n c1: x >= 1\nend\n")
         add("long-line", "LP", "min\n obj: x \\" + "c" * L + "\nst\n c1: x >= 1" + " " * L + "\nend\n")
         add("long-line", "MPS", "NAME t" + " " * L + "\nROWS\n N obj\n G c1\nCOLUMNS\n x obj 1 c1 1" + " " * L + "$ c\nENDATA\n")
